@@ -2752,7 +2752,14 @@ impl<T, A: BumpAllocatorTyped> BumpVec<T, A> {
 
             let new_ptr = match self.allocator.grow(old_ptr, old_layout, new_layout) {
                 Ok(ok) => ok.cast(),
-                Err(_) => return Err(E::allocation(new_layout)),
+                Err(_) => {
+                    // a claimed allocator refuses to grow too; that is not an allocation failure
+                    return Err(if self.allocator.is_claimed() {
+                        E::claimed()
+                    } else {
+                        E::allocation(new_layout)
+                    });
+                }
             };
 
             self.fixed.set_ptr(new_ptr);
